@@ -17,10 +17,10 @@ ID = "C03"
 TITLE = "descriptor before record, per stream"
 LEVEL = "exploration"
 RULE = (
-    "a fixed set of 15 record makers: an identifier-coincident pair (same name, same 32-bit hash, different fields), a "
+    "a fixed set of 19 record makers: an identifier-coincident pair (same name, same 32-bit hash, different fields), a "
     "same-name/different-fields pair (different hash), a holder whose inner type occurs only nested in a 'record' field, a "
     "holder with a record[] field whose elements are of the coincident types, a grouped record whose member types occur only "
-    "there, a grouped record with members of the same-name pair, a keyword-field type, a grouped record with the same group name and flat field list as another one but other member types, a type whose records can fail while being packed (good and failing variant: the failing write raises and the application carries on), a grouped record with a member of a coincident type, two grouped records of one group name whose members differ only in a field type.  Histories: EXHAUSTIVE over all write "
+    "there, a grouped record with members of the same-name pair, a keyword-field type, a grouped record with the same group name and flat field list as another one but other member types, a type whose records can fail while being packed (good and failing variant: the failing write raises and the application carries on), a grouped record with a member of a coincident type, two grouped records of one group name whose members differ only in a field type, name twins ('/' versus '_'), a descriptor cloned under a new name by the deprecated constructor form, a field-less marker type (plain and nested).  Histories: EXHAUSTIVE over all write "
     "sequences up to length 3 (quick) / 4 (thorough) over the makers, sampled one step longer, on a binary stream writer and on a JSON-lines writer, "
     "then random histories of length 20-200 and 2-3 writers open at the same time with interleaved writes.  Oracle per "
     "stream: (binary) the independent reference codec decodes the bytes - every record / nested / grouped identifier must "
@@ -40,7 +40,7 @@ BUDGET_S = {"quick": 200, "thorough": 1200}
 ANCHORS = ["flow.record.packer:RecordPacker.register", "flow.record.packer:RecordPacker.pack_obj", "flow.record.stream:RecordStreamWriter.on_new_descriptor",
            "flow.record.jsonpacker:JsonRecordPacker.register", "flow.record.adapter.jsonfile:JsonfileWriter.packer_on_new_descriptor"]
 
-NMAKERS = 15
+NMAKERS = 19
 BAD_MAKERS = {11}  # writing this record is expected to RAISE (unpackable value); the application carries on
 NONTRIVIAL_ALONE = {4, 5, 6, 7, 9, 12}
 
@@ -68,6 +68,11 @@ def makers():
     BD = RecordDescriptor("bad/able", [("dictlist", "dl"), ("string", "s")])
     T1 = RecordDescriptor("val/t", [("string", "value")])
     T2 = RecordDescriptor("val/t", [("uint32", "value")])
+    TW1 = RecordDescriptor("tw/in/x", [("string", "a"), ("varint", "n")])
+    TW2 = RecordDescriptor("tw/in_x", [("string", "a"), ("varint", "n")])
+    assert C.identifier  # the source's hash is computed before it is cloned
+    CL = RecordDescriptor("clone/of", C)
+    EM = RecordDescriptor("marker/empty", [])
 
     def mk(d, **kw):
         return d.recordType(_generated=g, **kw)
@@ -92,6 +97,13 @@ def makers():
         # 13 / 14: same group name, members of one type NAME and the same field names, differing only in a field type
         lambda i: GroupedRecord("grp/t", [mk(T1, value="v%d" % i)]),
         lambda i: GroupedRecord("grp/t", [mk(T2, value=i)]),
+        # 15 / 16: name twins - same field list, names differing only in '/' versus '_' (one generated class name)
+        lambda i: mk(TW1, a="tw%d" % i, n=i),
+        lambda i: mk(TW2, a="tu%d" % i, n=i + 1),
+        # 17: a descriptor cloned (deprecated form) under a NEW name from a descriptor whose hash is already computed
+        lambda i: mk(CL, a="cl%d" % i),
+        # 18: a type without fields (marker record), also nested in a holder
+        lambda i: mk(H, sub=mk(EM), tag="e%d" % i) if i % 2 else mk(EM),
     ]
 
 
@@ -143,6 +155,19 @@ def flat_obs(g):
     fields = [[str(t), str(n)] for t, n in d.get_field_tuples()]
     names = [n for _, n in fields] + ["_source", "_classification", "_generated", "_version"]
     return ["rec", str(d.name), fields, [[n, observe.oval(getattr(g, n))] for n in names]]
+
+
+MAKER_NAMES = {0: "t/x", 1: "t/x", 2: "same/name", 3: "same/name", 4: "holder/rec", 5: "holder/list", 6: "grp/only", 7: "grp/same", 8: "kw/type",
+               9: "grp/only", 10: "bad/able", 12: "grp/co", 13: "grp/t", 14: "grp/t", 15: "tw/in/x", 16: "tw/in_x", 17: "clone/of"}
+
+
+def created_with_ok(m, rec):
+    """The record reports the type name its maker's descriptor was DEFINED with (independent of the record's own view)."""
+    want = MAKER_NAMES.get(m)
+    if want is None:
+        return True
+    have = getattr(rec, "name", None) if type(rec).__name__ == "GroupedRecord" else rec._desc.name
+    return have == want
 
 
 def expected_obs(rec, fmt):
@@ -344,6 +369,9 @@ def run_streams(ctx, case, fmt, nw, ops):
                     ctx.event("unserialisable_record_refused")
                     continue
                 ctx.violation(None, "a record holding an unserialisable value (a set) was written without an error", detail={"maker": m, "history": ops})
+                return
+            if not created_with_ok(m, rec):
+                ctx.violation(None, "a record does not carry the descriptor (type name) it was created with", detail={"maker": m, "defined_as": MAKER_NAMES.get(m), "record_reports": str(getattr(getattr(rec, "_desc", None), "name", None))})
                 return
             written[w].append(rec)
             try:
